@@ -3,10 +3,8 @@ namespace glm
 	template<typename T, qualifier Q>
 	GLM_FUNC_QUALIFIER vec<4, bool, Q> equal(qua<T, Q> const& x, qua<T, Q> const& y)
 	{
-		vec<4, bool, Q> Result;
-		for(length_t i = 0; i < x.length(); ++i)
-			Result[i] = x[i] == y[i];
-		return Result;
+		// by component name: operator[] follows the storage order, which GLM_FORCE_QUAT_DATA_WXYZ changes
+		return vec<4, bool, Q>(x.x == y.x, x.y == y.y, x.z == y.z, x.w == y.w);
 	}
 
 	template<typename T, qualifier Q>
@@ -19,10 +17,8 @@ namespace glm
 	template<typename T, qualifier Q>
 	GLM_FUNC_QUALIFIER vec<4, bool, Q> notEqual(qua<T, Q> const& x, qua<T, Q> const& y)
 	{
-		vec<4, bool, Q> Result;
-		for(length_t i = 0; i < x.length(); ++i)
-			Result[i] = x[i] != y[i];
-		return Result;
+		// by component name: operator[] follows the storage order, which GLM_FORCE_QUAT_DATA_WXYZ changes
+		return vec<4, bool, Q>(x.x != y.x, x.y != y.y, x.z != y.z, x.w != y.w);
 	}
 
 	template<typename T, qualifier Q>
